@@ -1089,6 +1089,34 @@ def tool_leg(col: common.Collector, tmp: str, edits: List[G.J]) -> None:
     old_path = os.path.join(tmp, "old_db.pdx")
     shutil.copy(subj.pdx, old_path)
     db_old = odxtools.load_pdx_file(old_path)
+    # the list tool end to end: the overview it prints first
+    from odxtools.cli import list as list_tool
+    lparser = argparse.ArgumentParser()
+    lsub = lparser.add_subparsers(dest="subparser_name")
+    list_tool.add_subparser(lsub)
+    all_names = [dl.short_name for dl in db_old.diag_layers]
+    for variants in (None, all_names[1:3], list(reversed(all_names[:3])), all_names[-1:]):
+        argv = ["list", old_path] + (["-v"] + variants if variants else [])
+        det = {"what": "list-tool", "argv": argv[:1] + ["<pdx>"] + argv[2:]}
+        col.ev()
+        try:
+            text = capture_tool(list_tool.run, lparser.parse_args(argv))
+        except BaseException as x:  # noqa
+            det["problem"] = f"{type(x).__name__}: {x}"
+            col.violation(("list-tool-raises", type(x).__name__), det)
+            continue
+        body = text.split("Diagnostic layer:", 1)[0]
+        rows = parse_table(body)
+        chosen = variants if variants else all_names
+        by_name = {dl.short_name: dl for dl in db_old.diag_layers}
+        want = [[n, by_name[n].variant_type.value, str(len(by_name[n].services)),
+                 str(len(by_name[n].diag_data_dictionary_spec.data_object_props)),
+                 str(len(getattr(by_name[n], "comparam_refs", [])))] for n in chosen]
+        col.count("tool-leg:list-overviews")
+        col.nontrivial(("list-tool", tuple(chosen)))
+        if rows != want:
+            col.violation(("list-tool-overview-wrong", "variants-selected" if variants else "all-layers"),
+                          dict(det, table_rows=rows, expected_rows=want))
     for n, e in enumerate(picks):
         root_e = ET.fromstring(subj.xml)
         apply_edit(root_e, e)
@@ -1168,7 +1196,7 @@ REQUIRED = (["kind:add", "kind:delete", "kind:rename", "kind:param-change",
              "self-compare:layers", "db-compare:self", "db-compare:edit", "metrics-rows",
              "metrics-rows-with-comparams", "metrics-rows-with-dops", "somersault-edits",
              "edit:delete/service/new-layer-has-no-service", "edit:param-change/dop-data-type",
-             "tool-leg:overview-tables"] +
+             "tool-leg:overview-tables", "tool-leg:list-overviews"] +
             [f"attr:{a}/{k}" for a in PARAM_ATTRS for k in ("request", "pos", "neg")])
 
 
